@@ -1,5 +1,6 @@
 """C19 — generated code is hygienic about crate name and user type-parameter names."""
 import json
+import re
 import string
 
 from . import core, model, e2, fam_basic, fam_custom, fam_reply, c15
@@ -24,6 +25,73 @@ def named_contract(n, fw="sylvia", with_reply=True):
         c.methods = c.methods + tuple(fam_reply.to_method(r) for r in rms)
         c.features = "replies"
     return c
+
+
+def named_contract2(n1, n2):
+    """Two parameters, first used in the order (n2, n1) by exec, (n1, n2) by query, n2 only by sudo."""
+    w = tuple("%s: %s" % (n, BOUNDS) for n in (n1, n2))
+    ms = [Method("instantiate", "inst", (Arg("a", n2), Arg("b", n1))),
+          Method("exec", "ex", (Arg("a", "Vec<%s>" % n2), Arg("b", n1))),
+          Method("query", "qu", (Arg("a", n1), Arg("b", "Option<%s>" % n2))),
+          Method("sudo", "su", (Arg("a", n2),))]
+    return Contract(methods=tuple(ms), generics=((n1, ""), (n2, "")), where=w,
+                    new="pub const fn new() -> Self { Self { _p: std::marker::PhantomData } }")
+
+
+def shape_of(o, n1, n2):
+    """The generic parameter lists and self types of everything generated, with the user's two names abstracted."""
+    ren = lambda x: "$1" if x == n1 else "$2" if x == n2 else x
+    rx = re.compile(r"(?<![A-Za-z0-9_])(%s|%s)(?![A-Za-z0-9_])" % (re.escape(n1), re.escape(n2)))
+    rentext = lambda t: rx.sub(lambda m: ren(m.group(1)), str(t))
+    out = []
+
+    def walk(items, path):
+        for it in items:
+            k = it.get("k")
+            nm = rentext(it.get("name") or it.get("self_ty") or "")
+            if k in ("enum", "struct", "type", "fn", "impl", "trait"):
+                out.append((path + "/" + str(k) + ":" + nm + ((" for " + rentext(it["trait"])) if it.get("trait") else ""), [ren(x) for x in (it.get("generics") or [])]))
+            if k in ("impl", "trait", "mod"):
+                walk(it.get("items", []), path + "/" + nm)
+    walk(o.get("items", []), "")
+    return out
+
+
+def run_e1_pairs(res, tier):
+    """Renaming the user's parameters must not change anything but the names: the parameter lists of all generated items
+    for `impl<N1, N2>` equal those for the baseline names position by position (so user code naming a generated type with
+    explicit arguments means the same whatever the parameters are called)."""
+    base = ("Ta", "Tb")
+    other = "Mm"
+    pairs = [base]
+    for n in all_names():
+        if n != other:
+            pairs += [(n, other), (other, n)]
+    recs = [model.e1_contract_record("pair:%s:%s" % pr, named_contract2(*pr), want="items,mt") for pr in pairs]
+    obs = core.e1_run(recs, "c19-pairs-" + tier)
+    ref = None
+    # names the generated code itself uses (Query, Contract, Remote ...) cannot be told apart from the user's in the dump;
+    # their programs are still expanded and compiled by the other parts of this check
+    own_words = set(re.findall(r"[A-Za-z_][A-Za-z0-9_]*", json.dumps(shape_of(obs[0], "\0", "\0"))))
+    for pr, o, r in zip(pairs, obs, recs):
+        if pr != base and (set(pr) - {other}) & own_words:
+            continue
+        res.add(states=1, transitions=1, evaluations=1)
+        res.mark_nontrivial("e1:" + o["id"])
+        if o.get("dirty") or o.get("panic"):
+            res.violation({"kind": "names", "cls": "rejected", "name": pr[0] if pr[1] == other else pr[1], "pid": o["id"], "program": r["item"],
+                           "what": "%s: program with parameters named %s rejected by the macro: %s" % (o["id"], pr, o.get("panic"))})
+            continue
+        sh = shape_of(o, *pr)
+        if ref is None:
+            ref = sh
+            continue
+        res.outcome(("pair_shape", sh == ref))
+        if sh != ref:
+            diff = [(a, b) for a, b in zip(ref, sh) if a != b][:3]
+            res.violation({"kind": "names", "cls": "order_depends_on_names", "name": pr[0] if pr[1] == other else pr[1], "pid": o["id"], "program": r["item"], "diff": diff,
+                           "what": "%s: with parameters named %s the generated items' parameter lists differ from those for %s beyond the renaming: %s" % (
+                               o["id"], pr, base, diff if diff else "different number of generic items (%d vs %d)" % (len(sh), len(ref)))})
 
 
 def named_interface(n, fw="sylvia"):
@@ -225,6 +293,7 @@ def renamed_corpus(res, tier):
 def run(tier):
     res = core.Result("C19", tier)
     run_e1_names(res, tier)
+    run_e1_pairs(res, tier)
     compile_names(res, tier)
     renamed_corpus(res, tier)
     res.sample({"renamed_dependency": "fw = { package = \"sylvia\", path = \"/repo/sylvia\" }", "program": "every quick program of families basic, custom, reply, generic, override"})
@@ -233,6 +302,9 @@ def run(tier):
                        "interfaces, generics, every reply arm incl. pass-through, every data mode, overrides, multitest helpers) rendered with the dependency renamed "
                        "to `fw` (no `sylvia` name in the crate) must compile; (b) a generic contract with replies and an interface with an associated type whose "
                        "parameter is named each of the 26 single letters and 13 conventional words: every generic-parameter list of the expansion is checked for "
-                       "duplicates / shadowing (E1) and the programs are compiled (E3; quick: 13 names, thorough: all 39).  non-trivial = every program")
+                       "duplicates / shadowing (E1) and the programs are compiled (E3; quick: 13 names, thorough: all 39); the name list is closed over every type-parameter "
+                       "and associated-type name the generated code itself introduces (read from the expansion; reserved prefix `Sv` excluded); (c) a two-parameter "
+                       "contract whose parameters are first used in both orders, for every name paired with a fixed second name in both positions: all generated "
+                       "items' parameter lists equal the baseline's up to the renaming.  non-trivial = every program")
     res.assumptions += ["E1 runs with the framework path fixed to `sylvia`; the renamed path is exercised only by the compiled corpus"]
     return res.finish()
